@@ -1,6 +1,7 @@
 import BronVerif.Drive.Common
 import BronVerif.Model.CheckGraph
 import BronVerif.Model.CheckGraphs
+import BronVerif.Model.CheckGraphVec
 /-! Driver handlers for C04 (tamper matrix against the check graphs).
 
 Lines (see harness/c04.go):
@@ -22,6 +23,14 @@ Verdict of a tampering, from the check graph of `<proto>` (`Model/CheckGraphs.le
 * value-preserving re-encoding: may be accepted;
 * **unbound** leaf: any outcome, but if everybody accepts the outputs must be valid;
 * a site the graph does not know                                               ⇒ UNSUPPORTED.
+
+RELATIONAL tamperings (harness/c04_rel.go) change two sites together so that sums / aggregates stay
+intact: `<path>` is `<pathA>~<pathB>` (pshift pscale vswap: both sites change; vcopy: only B), the
+site class is the stronger of the two (bound > structural > unbound); between the unicasts to two
+recipients `<rcpt>` is `<A>+<B>` and `<changed>` is `<cA>+<cB>`: EACH recipient whose message changed
+must reject. A bound vector-valued leaf (`Graph.vectors`) must be bound by a per-row family
+(`Pred.perRow`): the prediction "rejected, sender blamed" for a paired shift inside such a vector
+rests on the per-component form of the check (`Props/C04.lean`, `detect_boldyreva_component`).
 -/
 namespace BronVerif.Drive.C04
 open BronVerif BronVerif.Drive BronVerif.CheckGraph
@@ -60,13 +69,38 @@ def firstSome {α} : List (Option α) → Option α
   | some a :: _ => some a
   | none :: r => firstSome r
 
+/-- the stronger of two site classes: unknown > bound > structural > unbound -/
+def strongerClass : SiteClass → SiteClass → SiteClass
+  | .unknown, _ => .unknown
+  | _, .unknown => .unknown
+  | .boundLeaf l ps, .boundLeaf _ qs => .boundLeaf l (ps ++ qs.filter fun q => !ps.contains q)
+  | .boundLeaf l ps, _ => .boundLeaf l ps
+  | _, .boundLeaf l ps => .boundLeaf l ps
+  | .structural, _ => .structural
+  | _, .structural => .structural
+  | c, _ => c
+
+/-- class of the path token of a line: `a~b` for the relational operators (`vcopy` changes only `b`) -/
+def classifyToken (g : Graph) (round : Nat) (kind : Kind) (path op : String) : SiteClass :=
+  match path.splitOn "~" with
+  | [a, b] =>
+    if op == "vcopy" then g.classify round kind b
+    else strongerClass (g.classify round kind a) (g.classify round kind b)
+  | _ => g.classify round kind path
+
+/-- a bound leaf under a declared vector must be bound by a per-row family -/
+def vectorBoundPerRow (g : Graph) (l : Leaf) (ps : List Pred) : Bool :=
+  !(g.vectors.contains l) || ps.any (·.perRow)
+
+def normToken (path : String) : String := "~".intercalate ((path.splitOn "~").map normPath)
+
 def handleTamper (g : Graph) (round sender : Nat) (rcpt path op changed : String) (o : Outcome) : Verdict :=
   let honest := o.parties.filter (·.1 != sender)
   let aggPresent := o.agg != "-"
   let kind := if rcpt == "b" then Kind.bcast else Kind.ucast
   -- stable identifier of the tampered site (the same token is in the harness's !VIOLATION lines)
   let site := "site=" ++ g.proto ++ "/r" ++ toString round ++ "/" ++ (if rcpt == "b" then "b" else "u") ++ "/" ++
-    normPath path ++ "/" ++ op
+    normToken path ++ "/" ++ op
   let sane := firstSome ((honest.map fun (i, c) => classBad ("party-" ++ toString i ++ " " ++ site) sender c) ++
     [if aggPresent then classBad ("aggregator " ++ site) sender o.agg else none])
   match sane with
@@ -79,12 +113,19 @@ def handleTamper (g : Graph) (round sender : Nat) (rcpt path op changed : String
   -- runner stops there; on a network the others would wait for its next message): no acceptance
   let senderStopped := (o.parties.any fun (i, c) => i == sender && !isOk c) && o.out == "none"
   let rejected := !rejecting.isEmpty || aggRejects || senderStopped
+  -- recipients and their `changed` flags: `A+B` / `cA+cB` for the relational operators between two unicasts
+  let rcpts := rcpt.splitOn "+"
+  let flags := changed.splitOn "+"
+  let oneRejected (r : Nat) : Bool :=
+    (honest.any fun (i, c) => i == r && !isOk c) || (!(honest.any fun (i, _) => i == r)) || senderStopped
   let rcptRejected : Bool :=
-    match rcpt.toNat? with
-    | some r => (honest.any fun (i, c) => i == r && !isOk c) || (!(honest.any fun (i, _) => i == r)) || senderStopped
-    | none => rejected
-  let deviation := changed != "0"
-  let missing := changed == "u" || changed == "d"
+    if rcpt == "b" then rejected else
+    (rcpts.zip (if flags.length == rcpts.length then flags else rcpts.map fun _ => changed)).all fun (r, f) =>
+      match r.toNat? with
+      | some n => f == "0" || oneRejected n
+      | none => false
+  let deviation := flags.any (· != "0")
+  let missing := flags.any fun f => f == "u" || f == "d"
   let accepted := !rejected
   let outOk : Verdict :=
     if accepted && o.out != "valid" then .bad "bad-output-released" ("accepted but out=" ++ o.out ++ " " ++ site) else .ok
@@ -103,10 +144,13 @@ def handleTamper (g : Graph) (round sender : Nat) (rcpt path op changed : String
     else .ok
   -- messages of the round after the last receiver predicate go to the aggregator
   let toAgg := g.preds.any fun p => p.who == .aggregator && p.binds.any fun l => l.round == round && l.kind == kind
-  match g.classify round kind path with
+  match classifyToken g round kind path op with
   | .unknown => .unsupported ("site not in the check graph of " ++ g.proto ++ ": r" ++ toString round ++ " " ++ rcpt ++ " " ++ path)
   | .structural => mustReject ("structural site " ++ path) false toAgg
-  | .boundLeaf l ps => mustReject ("bound leaf " ++ l.path ++ " (" ++ ",".intercalate (ps.map (·.name)) ++ ")") (ps.all (·.tagged)) toAgg
+  | .boundLeaf l ps =>
+    if !vectorBoundPerRow g l ps then
+      .unsupported ("vector-valued leaf " ++ l.path ++ " of " ++ g.proto ++ " is not bound by a per-row predicate family")
+    else mustReject ("bound leaf " ++ l.path ++ " (" ++ ",".intercalate (ps.map fun p => p.name ++ (if p.perRow then "[row]" else "")) ++ ")") (ps.all (·.tagged)) toAgg
   | .unboundLeaf _ => outOk
 
 def handle (op : String) (args : List String) (rhs : String) : Verdict :=
